@@ -55,11 +55,15 @@ def _resolver_error_cls():
         return HarnessResolverError
 
 
+WATCHDOG_S = 2.0     # wall-clock; a firing is only REPORTED after a confirmation run with CONFIRM_S (machine load!)
+CONFIRM_S = 25.0
+
+
 class watchdog:
     """Hard timeout around code of the repo that may block (Future.result() on a pending future)."""
 
-    def __init__(self, seconds=2.0):
-        self.seconds = seconds
+    def __init__(self, seconds=None):
+        self.seconds = seconds or WATCHDOG_S
         self.armed = False
 
     def __enter__(self):
@@ -681,6 +685,8 @@ def run_asyncio(case, schedule):
                 steps += 1
             if not task.done():
                 return obs_of_result(w, status="pending", steps=steps)
+            if isinstance(task.exception(), Watchdog):
+                return obs_of_result(w, status="hang", steps=steps)
             if task.exception() is not None:
                 return obs_of_result(w, exc=task.exception(), status="failed", steps=steps)
             return obs_of_result(w, result=task.result(), status="ok", steps=steps)
@@ -700,6 +706,23 @@ def run_asyncio(case, schedule):
 
 
 RUNNERS = {"threadpool": run_threadpool, "asyncio": run_asyncio}
+
+
+def confirm_hang(case, config, schedule):
+    """Re-run one configuration with a long watchdog. True = it really does not complete (hang or pending)."""
+    global WATCHDOG_S
+    old = WATCHDOG_S
+    WATCHDOG_S = CONFIRM_S
+    try:
+        if config == "blocking":
+            obs = run_blocking(case)
+        elif config == "generic-blocking":
+            obs = run_blocking(case, generic=True)
+        else:
+            obs = RUNNERS[config](case, schedule or [])
+    finally:
+        WATCHDOG_S = old
+    return obs["status"] in ("hang", "pending")
 
 
 # ---------------------------------------------------------------------------
